@@ -239,6 +239,9 @@ func encAdmission(a *core.Admission) ([]byte, bool) {
 				ip = append(ip, der.Seq(oids...))
 			}
 			if pi.RegNum != "" {
+				if !der.IsPrintableString(pi.RegNum) {
+					return nil, false // not encodable as the PrintableString the specification prescribes
+				}
 				ip = append(ip, der.Printable(pi.RegNum))
 			}
 			if pi.AddInfo != nil {
@@ -272,6 +275,10 @@ func genASCII(t *rapid.T, label string, maxLen int) string {
 // genURI draws URIs that are not in any canonical form: mixed-case schemes,
 // spaces, percent signs, empty fragments, userinfo, ports.
 func genURI(t *rapid.T, label string) string {
+	if rapid.IntRange(0, 14).Draw(t, label+"-boundarylen") == 0 {
+		n := rapid.SampledFrom([]int{127, 128, 129, 255, 256}).Draw(t, label+"-blen")
+		return "http://" + strings.Repeat("u", n-11) + ".org"
+	}
 	scheme := rapid.SampledFrom([]string{"http", "http", "https", "HTTP", "Http", "ldap", "ftp"}).Draw(t, label+"-scheme")
 	host := rapid.StringMatching(`[A-Za-z0-9][A-Za-z0-9.-]{0,20}`).Draw(t, label+"-host")
 	s := scheme + "://" + host
@@ -299,6 +306,12 @@ func genGN(t *rapid.T, label string, kinds []string) core.GN {
 			return core.GN{Type: k, Name: rapid.SampledFrom([]string{"0.0.0.0", "255.255.255.255", "0.0.0.1"}).Draw(t, label+"-edgeip")}
 		}
 		return core.GN{Type: k, Name: ""}
+	}
+	if k != "ip" && rapid.IntRange(0, 11).Draw(t, label+"-boundarylen") == 0 {
+		// lengths around the one-octet / two-octet DER length boundaries
+		n := rapid.SampledFrom([]int{126, 127, 128, 129, 255, 256, 257}).Draw(t, label+"-blen")
+		prefix := map[string]string{"mail": "u@", "url": "http://", "dns": ""}[k]
+		return core.GN{Type: k, Name: prefix + strings.Repeat("a", n-len(prefix)-4) + ".org"}
 	}
 	switch k {
 	case "ip":
@@ -459,6 +472,10 @@ func genAdmission(t *rapid.T, label string) *core.Admission {
 				pi.RegNum = strings.TrimSpace(string(rs))
 				if pi.RegNum == "" || strings.ContainsAny(pi.RegNum, ",") {
 					pi.RegNum = "1-2-3"
+				}
+				if rapid.IntRange(0, 15).Draw(t, lp+"-regbad") == 0 {
+					// characters outside X.680 PrintableString: cannot be encoded, must be refused
+					pi.RegNum += rapid.SampledFrom([]string{"*", "@", "_", "&", "é"}).Draw(t, lp+"-regbadch")
 				}
 			}
 			switch rapid.IntRange(0, 3).Draw(t, lp+"-add") {
